@@ -240,7 +240,10 @@ class ModelDomain(Domain):
                 return UNK
             if name not in ('same_opt', 'val') and any(a is NONE for a in args):
                 return UNK
-            return self.spec_builtins[name](*args)
+            try:
+                return self.spec_builtins[name](*args)
+            except (z3.Z3Exception, AttributeError, TypeError):
+                return UNK          # an argument of a shape the specification function is not defined on (changed code): the clause is untracked, not a checker error
         if getattr(eng, 'in_spec', 0) and name == 'wavg':
             n, a, b = [eng.ev(x, st) for x in e.args]
             return wavg_f(z3.ToReal(n) / z3.ToReal(n + 1), a, b)
